@@ -96,7 +96,8 @@ def selftest(seed: int) -> int:
     j1 = json.loads(json.dumps(job)); j1["tid"] = "loop-corrupt"
     next(e for e in j1["events"] if e["op"] == "packet" and e["nrules"] > 2)["nrules"] += 1
     j2 = json.loads(json.dumps(job)); j2["tid"] = "loop-dropped"
-    del j2["events"][3]
+    k = next(i for i, e in enumerate(j2["events"]) if e["op"] == "packet" and e["kind"] == "expand" and i > 0 and e["nlabels"] > 1)
+    del j2["events"][k]  # a state-changing step (a dropped no-op check would rightly be accepted)
     res = [searchmodel.validate_loop(run2, j, str(i)) for i, j in enumerate((job, j1, j2))]
     tlc.clean_workdir(run2.wd)
     ok2 = [v.accepted for v in res] == [1, 0, 0]
